@@ -1,4 +1,5 @@
 import MQ.Model.Accept
+import MQ.Model.ArithDrv
 import MQ.Model.SpecDrv
 open MQ
 
@@ -29,5 +30,17 @@ def runCore : IO Unit := do
 def main (args : List String) : IO Unit := do
   match args with
   | ["core"] => runCore
+  | ["arith"] => do
+      let lines ← readAll (← IO.getStdin) #[]
+      let mut bad := 0
+      let mut n := 0
+      for l in lines do
+        n := n + 1
+        match MQ.Arith.evalLine l with
+        | none => pure ()
+        | some m =>
+            bad := bad + 1
+            if bad ≤ 10 then IO.println s!"ARITH-MISMATCH {l.trimAscii.toString} model={m}"
+      IO.println s!"ARITH lines={n} mismatches={bad}"
   | ["spec"] => MQ.Spec.runSpec
   | _ => IO.println "usage: mqdrv core < traces"
